@@ -726,6 +726,20 @@ class ModelsOps:
             q = Num(self.ufn("floordiv", ratio), "int")
             r = Num(self.ufn("mod", ratio), "int")
             return TupleV([q, r])
+        if name == "zip":
+            seqs = []
+            for a in args:
+                sq = self.iterate(a, node)
+                if sq is None and isinstance(a, TermV) and a.items is not None:
+                    sq = [TupleV([e, x]) for e, x in a.items]
+                seqs.append(sq)
+            if all(sq is not None for sq in seqs):
+                return ListV([TupleV(list(t)) for t in zip(*seqs)])
+        if name in ("all", "any") and args:
+            sq = self.iterate(args[0], node)
+            if sq is not None:
+                vals = [self.truth(x, node) for x in sq]
+                return BoolV(all(vals) if name == "all" else any(vals))
         if name in ("sorted", "map", "zip", "enumerate", "range", "filter"):
             self.st.effects.append((name, args, kwargs, self.where(node)))
             lv = ListV(None, tag=name)
@@ -786,6 +800,13 @@ class ModelsOps:
             q = QtyV(None, None, c.tid, name=self.st.fresh("raw"), fresh=True)
             self.st.effects.append(("rawnew", q, self.where(node)))
             return q
+        if isinstance(c, TypeV) and c.ci is not None and c.name in ("QuantityMeta", "MoneyMeta",
+                                                                   "ClassWithDefinitionMeta"):
+            # type.__new__(mcs, name, bases, clsdict): a new quantity class
+            tid = self.st.new_type(money=True if c.name == "MoneyMeta" else None)
+            cv = ClsV(tid)
+            self.st.effects.append(("newclass", cv, self.where(node)))
+            return cv
         if isinstance(c, TypeV) and c.ci is not None:
             return ObjV(c.ci, self.st.fresh(c.name.lower()))
         if isinstance(c, TypeV):
